@@ -245,6 +245,7 @@ def OpOk (Vf : VFun) (w : World) : Op → Prop
   | .readVol s V => VLine Vf w s V
   | .get s d _ _ V => d = .vol → VLine Vf w s V
   | .put s d _ _ _ V => d = .vol → VLine Vf w s V
+  | .putRow s d _ _ V => d = .vol → VLine Vf w s V
   | .getFlow s u _ _ V => ∀ f, w.flowUnit u = .ok (.vol, f) → VLine Vf w s V
   | .setFlow s u _ _ _ V => ∀ f, w.flowUnit u = .ok (.vol, f) → VLine Vf w s V
   | _ => True
@@ -309,6 +310,46 @@ theorem putElem_vvalid {Vf : VFun} {w w' : World} {sid : Nat} {d : Dim} {ph : Op
               (if x = 0 then [] else (w.volView sid).1.newEntry (w.volView sid).2 k i (vAt V k i))).c := by
             apply addEntries_valid hf.2.1
             intro e he
+            split_ifs at he
+            · cases he
+            · have hl1 := vline_transfer (hl rfl) hf.2.2.2.1 hf.2.2.2.2.1 (by rw [hf.2.2.1]) (by rw [hf.2.2.1])
+              rw [hf.2.2.2.2.2] at hr
+              rw [← hf.2.2.2.2.1] at hr
+              exact newEntry_valid hf.1 k i _ (hl1 k r hr i) e he
+          exact vvalid_of_vcs this rfl
+      · cases he
+
+theorem putRow_vvalid {Vf : VFun} {w w' : World} {sid : Nat} {d : Dim} {ph : Option Char} {xs : List Rat}
+    {V : Mat} {vid : Option Nat} (h : Inv w.s) (hs : sid < w.s.nstreams) (hv : VValid Vf w.c)
+    (hl : d = .vol → VLine Vf w sid V)
+    (he : w.putRow sid d ph xs V = .ok (w', vid)) : VValid Vf w'.c := by
+  simp only [World.putRow] at he
+  split at he
+  · cases he
+  · rename_i k hk
+    split at he
+    · cases he
+    · split at he
+      · split at he
+        · cases he
+        · cases he; exact vvalid_of_vcs hv rfl
+      · split at he
+        · cases he
+        · cases he
+          exact vvalid_of_vcs (massView_facts h hs hv).2.1 rfl
+      · have hf := volView_facts h hs hv
+        split at he
+        · cases he
+        · rename_i r hr
+          cases he
+          have : VValid Vf ((w.volView sid).1.addEntries (w.volView sid).2
+              (xs.zipIdx.flatMap (fun (x, i) => if x = 0 then []
+                else (w.volView sid).1.newEntry (w.volView sid).2 k i (vAt V k i)))).c := by
+            apply addEntries_valid hf.2.1
+            intro e he
+            simp only [List.mem_flatMap] at he
+            obtain ⟨⟨x, i⟩, -, he⟩ := he
+            simp only at he
             split_ifs at he
             · cases he
             · have hl1 := vline_transfer (hl rfl) hf.2.2.2.1 hf.2.2.2.2.1 (by rw [hf.2.2.1]) (by rw [hf.2.2.1])
@@ -569,6 +610,14 @@ theorem exec_vvalid {Vf : VFun} {w w' : World} {op : Op} {out : Out} (h : Inv w.
         obtain ⟨w1, vid⟩ := r
         cases he
         exact putElem_vvalid h (hsid s (by simp [Op.sids])) hv hok hr
+    | putRow s d ph xs V =>
+      simp only [Except.map] at he
+      split at he
+      · cases he
+      · rename_i r hr
+        obtain ⟨w1, vid⟩ := r
+        cases he
+        exact putRow_vvalid h (hsid s (by simp [Op.sids])) hv hok hr
     | getFlow s u ph i V =>
       simp only [Except.map, World.getFlow] at he
       split at he
@@ -1070,6 +1119,101 @@ theorem set_get_same_unit {Vf : VFun} {w w1 : World} {sid : Nat} {u : String} {p
   obtain ⟨w2, hget⟩ := set_get_other_unit (V' := V') h hs hv ha ha rfl hao hfa hl hok hset
   rw [(factor_consistent a a a hfa hfa).1, mul_one] at hget
   exact ⟨w2, hget⟩
+
+/-! ## whole-row assignment through a view -/
+
+theorem divVec_mulVec (xs mw : List Rat) (hl : xs.length = mw.length) (hz : ∀ m ∈ mw, m ≠ 0) :
+    mulVec (divVec xs mw) mw = xs := by
+  induction xs generalizing mw with
+  | nil => simp [mulVec, divVec]
+  | cons a t ih =>
+    cases mw with
+    | nil => simp at hl
+    | cons b u =>
+      simp only [mulVec, divVec, List.zipWith_cons_cons, List.cons.injEq] at ih ⊢
+      have hb : b ≠ 0 := hz b (by simp)
+      refine ⟨by field_simp, ih u (by simpa using hl) (fun m hm => hz m (by simp [hm]))⟩
+
+/-- **put_row_mass_spec.**  `s.mass = values` / `s.imass[phase] = values` (an ndarray or another stream's mass view):
+the addressed molar row becomes `values_i / MW_i` with the *receiver's* molecular weights; nothing else is rebound. -/
+theorem put_row_mass_spec {w w' : World} {sid : Nat} {ph : Option Char} {xs : List Rat} {V : Mat}
+    {vid : Option Nat} (h : Inv w.s) (hs : sid < w.s.nstreams)
+    (he : w.putRow sid .mass ph xs V = .ok (w', vid)) :
+    ∃ k r, w.rowPos sid ph = .ok k ∧ (w.rowsOf sid)[k]? = some r ∧
+      w'.c.rows r = divVec xs (w.MW (w.stream sid).th) ∧ xs.length = (w.MW (w.stream sid).th).length ∧
+      w'.rowsOf sid = w.rowsOf sid ∧ w'.stream sid = w.stream sid ∧ w'.thermos = w.thermos := by
+  have hg := getView_good h hs (key := .mass) (Or.inl rfl)
+  have hcfg := (getView_cfg w sid .mass).1
+  have hst := getView_streams w sid .mass
+  simp only [World.putRow] at he
+  split at he
+  · cases he
+  · rename_i k hk
+    split at he
+    · cases he
+    · rename_i hlen
+      split at he
+      · cases he
+      · rename_i r hr
+        cases he
+        refine ⟨k, r, hk, ?_, ?_, Decidable.of_not_not hlen, ?_, ?_, hcfg⟩
+        · have : (w.massView sid).2.rows = w.rowsOf sid := hg.1
+          rw [← this]; exact hr
+        · have hth : (w.massView sid).2.th = (w.stream sid).th := hg.2.1
+          simp only [World.setRow, upd_same, World.MW, hth]
+          rw [show (w.massView sid).1.thermos = w.thermos from hcfg]
+        · simp only [World.rowsOf, World.stream, World.setRow]
+          rw [show (w.massView sid).1.s.streams = w.s.streams from hst.1,
+              show (w.massView sid).1.s.datas = w.s.datas from hst.2.2]
+        · simp only [World.stream, World.setRow]
+          rw [show (w.massView sid).1.s.streams = w.s.streams from hst.1]
+
+/-- **put_row_vol_spec.**  `s.vol = values`, `s.ivol.data.copy_like(other.vol)`, `s.ivol[phase] = values`: the addressed
+molar row becomes `values_i / (1000·V_i)` with the molar volumes at the **receiver's** chemicals, phase, T and P —
+whatever stream the values came from and whatever the views' caches held. -/
+theorem put_row_vol_spec {Vf : VFun} {w w' : World} {sid : Nat} {ph : Option Char} {xs : List Rat} {V : Mat}
+    {vid : Option Nat} (h : Inv w.s) (hs : sid < w.s.nstreams) (hv : VValid Vf w.c) (hl : VLine Vf w sid V)
+    (he : w.putRow sid .vol ph xs V = .ok (w', vid)) :
+    ∃ k r, w.rowPos sid ph = .ok k ∧ (w.rowsOf sid)[k]? = some r ∧
+      w'.c.rows r = xs.zipIdx.map (fun (x, i) => x / Vf (w.stream sid).th (streamPhase w sid k)
+        (w.c.tcs (w.stream sid).tc).1 (w.c.tcs (w.stream sid).tc).2 i) := by
+  have hf := volView_facts h hs hv
+  simp only [World.putRow] at he
+  split at he
+  · cases he
+  · rename_i k hk
+    split at he
+    · cases he
+    · split at he
+      · cases he
+      · rename_i r hr
+        cases he
+        have hr' : (w.rowsOf sid)[k]? = some r := by rw [← hf.2.2.2.2.2]; exact hr
+        refine ⟨k, r, hk, hr', ?_⟩
+        simp only [World.setRow, upd_same]
+        apply List.map_congr_left
+        rintro ⟨x, i⟩ -
+        have hl1 := vline_transfer hl hf.2.2.2.1 hf.2.2.2.2.1 (by rw [hf.2.2.1]) (by rw [hf.2.2.1])
+        have hr1 : ((w.volView sid).1.rowsOf sid)[k]? = some r := by rw [hf.2.2.2.2.1]; exact hr'
+        have hU := usedV_eq hf.2.1 hf.1 k i (vAt V k i) (hl1 k r hr1 i)
+        simp only
+        rw [hU, hf.2.2.2.1, hf.2.2.1]
+        simp [streamPhase, hf.2.2.2.1, hf.2.2.1]
+
+/-- **put_row_mass_reads_back.**  After a whole-row assignment through the mass view, the mass view reads back exactly the
+assigned values (non-zero molecular weights). -/
+theorem put_row_mass_reads_back {w w' : World} {sid : Nat} {ph : Option Char} {xs : List Rat} {V : Mat}
+    {vid : Option Nat} (h : Inv w.s) (hs : sid < w.s.nstreams)
+    (hmw : ∀ m ∈ w.MW (w.stream sid).th, m ≠ 0)
+    (he : w.putRow sid .mass ph xs V = .ok (w', vid)) :
+    ∃ k, w.rowPos sid ph = .ok k ∧ (w'.readMass sid).2.2[k]? = some xs := by
+  obtain ⟨k, r, hk, hr, hrow, hlen, hrows, hstream, hth⟩ := put_row_mass_spec h hs he
+  obtain ⟨hI, hn⟩ := inv_putRow h hs he
+  refine ⟨k, hk, ?_⟩
+  rw [mass_is_mol_MW hI (by rw [hn]; exact hs)]
+  simp only [World.readMol, hrows, hstream, List.getElem?_map, hr, Option.map_some]
+  have : w'.MW (w.stream sid).th = w.MW (w.stream sid).th := by simp [World.MW, hth]
+  rw [hrow, this, divVec_mulVec xs _ hlen hmw]
 
 /-! ## the code as found violates the property (reproduced in the model by the `…Old` variants) -/
 
